@@ -55,7 +55,7 @@ def make_cases(rng, tier, n):
                     ("checkout", rng.choice("lc"), False, [names[-1]])]
             stats["sink_only_target"] = stats.get("sink_only_target", 0) + 1
         for _ in range(rng.randrange(1, 5)):
-            k = rng.choice(["run", "run", "run_s", "commit", "status", "checkout", "edit", "push", "fetch", "graph"])
+            k = rng.choice(["run", "run", "run_s", "commit", "status", "checkout", "edit", "push", "fetch", "graph", "pull"])
             tg = []
             if rng.random() < 0.6:
                 tg = rng.sample(names, rng.randrange(1, min(3, len(names)) + 1))
@@ -73,6 +73,8 @@ def make_cases(rng, tier, n):
                 ops.append(("checkout", rng.choice("lc"), rng.random() < 0.4, tg))
             elif k in ("push", "fetch"):
                 ops.append((k, rng.random() < 0.4, tg))
+            elif k == "pull":
+                ops += [("commit", "l", []), ("push", False, []), ("pull", rng.choice("lc"), rng.random() < 0.3, tg)]
             elif k == "edit":
                 srcs = [e for e in c["init"] if e[0] == "file"]
                 if srcs:
@@ -104,9 +106,9 @@ def oracle(run):
     for st in run["steps"]:
         op = st["op"]
         what = "`%s`" % s1.op_text(op)
-        if op[0] in ("run", "commit", "checkout", "status", "push", "fetch", "graph"):
-            tg = op[2] if op[0] in ("run", "push", "fetch", "commit") else (op[3] if op[0] == "checkout" else op[1])
-            single = (op[0] in ("run", "push", "fetch") and op[1]) or (op[0] == "checkout" and op[2])
+        if op[0] in ("run", "commit", "checkout", "status", "push", "fetch", "graph", "pull"):
+            tg = op[2] if op[0] in ("run", "push", "fetch", "commit") else (op[3] if op[0] in ("checkout", "pull") else op[1])
+            single = (op[0] in ("run", "push", "fetch") and op[1]) or (op[0] in ("checkout", "pull") and op[2])
             targets = [names.index(t) for t in tg] if tg else list(range(n))
             if not tg and op[0] != "run":
                 single = False          # checkout/push/fetch ignore the flag without explicit targets; run honours it
